@@ -14,8 +14,12 @@ ClassOf(i) == CASE i \in {1, 2, 15} -> "TriangularMesh" [] i \in {3, 4, 16} -> "
                 [] i = 7 -> "Cuboid" [] i = 8 -> "Cylinder" [] i = 9 -> "Sphere" [] i = 10 -> "Tetrahedron"
                 [] i = 11 -> "Triangle" [] i = 12 -> "Circle" [] i = 13 -> "Dipole" [] i = 14 -> "Tetrahedron"
 Arrs == UNION {[1..n -> 1..NPal] : n \in 1..MaxLen}
+\* three sources of ONE variable-size class, the middle one different from the first (first and last possibly equal in size or identical)
+Ragged == {"TriangularMesh", "Polyline"}
+Sandwich == {<<i, j, k>> : i \in 1..NPal, j \in 1..NPal, k \in 1..NPal} \cap {a \in [1..3 -> 1..NPal] : ClassOf(a[1]) \in Ragged /\ ClassOf(a[2]) = ClassOf(a[1]) /\ ClassOf(a[3]) = ClassOf(a[1]) /\ a[2] # a[1]}
 \* "batch1": the smallest case - static copies of the sources and ONE observer (placed inside the last source)
 Init == \/ (kind \in {"batch", "batch1"} /\ arr \in Arrs /\ lin = <<0, 0>>)
+        \/ (kind = "batch" /\ arr \in Sandwich /\ lin = <<0, 0>>)
         \/ (kind = "linear" /\ arr \in [1..1 -> 1..NPal] /\ lin \in {<<CoefOf[i], CoefOf[j]>> : i \in CoefIdx, j \in CoefIdx})
 Next == UNCHANGED vars
 Spec == Init /\ [][Next]_vars
@@ -26,5 +30,6 @@ ASSUME \A i \in 1..NPal :
          /\ <<i>> \in Arrs
          /\ (\E j \in 1..NPal : j # i /\ ClassOf(j) = ClassOf(i)) => \E a \in Arrs : \E q \in 1..(Len(a) - 1) : a[q] = i /\ a[q + 1] # i /\ ClassOf(a[q + 1]) = ClassOf(i)
          /\ \E a \in Arrs : \E q \in 1..(Len(a) - 1) : a[q] = i /\ a[q + 1] = i
+ASSUME \A c \in Ragged : (\E a \in Sandwich : ClassOf(a[1]) = c /\ a[1] = a[3]) /\ (\E a \in Sandwich : ClassOf(a[1]) = c /\ a[1] # a[3] /\ a[2] # a[3])
 TypeOK == kind \in {"batch", "batch1", "linear"} /\ Len(arr) >= 1
 =============================================================================
